@@ -225,7 +225,13 @@ func (w *srvWorld) callR(si int, addr int, cl *miniserver.Client, req *packet.Ha
 		return kind, resp, cl
 	case wantBan == Yes && kind != "banned":
 		w.undet[addr] = "banned address refused by a later stage (" + kind + ")"
-		w.feats["banned-refused-by-other-stage"]++
+		if b := w.bf[addr].ban; b != nil && b.perm && !b.permCertain {
+			// bad credentials: the refusal itself says nothing; the credential stage was reached because the
+			// lifetime total had been forgotten (listed finding) - only good credentials make that a let-in
+			w.feats["uncertain-permanent-ban:bad-credentials-refused-by-credential-stage"]++
+		} else {
+			w.feats["banned-refused-by-other-stage:"+kind]++
+		}
 		return kind, resp, cl
 	}
 	if kind == "banned" {
